@@ -125,7 +125,7 @@ Inductive act :=
 | AMkdtemp (d : path)
 | ASameFile (p q : path)
 | AOpenW (p : path)
-| ACallback (i : nat) (raises : bool)
+| ACallback (i : nat) (raises : option exn)   (* the progress callback; may raise any exception kind *)
 | ASeek (off : nat)
 | AWrite (d : list byte)
 | AWriteBuf
@@ -138,7 +138,7 @@ Inductive act :=
 | ARemove (p : path)
 | ARmdir (p : path)
 (* uncounted: in-memory computations that may raise *)
-| AEvalRaise
+| AEvalRaise (e : exn)
 | ATofileOpen (t : nat)
 | ARead (t : nat) (rel n : nat)
 | ACheckFull (t : nat)
@@ -147,7 +147,7 @@ Inductive act :=
 
 Definition counted (a : act) : bool :=
   match a with
-  | AEvalRaise | ATofileOpen _ | ARead _ _ _ | ACheckFull _ | AReadT _ | ARaiseExists => false
+  | AEvalRaise _ | ATofileOpen _ | ARead _ _ _ | ACheckFull _ | AReadT _ | ARaiseExists => false
   | _ => true
   end.
 
@@ -216,7 +216,7 @@ Definition sem (a : act) (s : st) : st * res unit :=
                 else (log (OOpenW p) s, Raise OSError)
       | Some _ => (log (OOpenW p) s, Raise OSError)
       end
-  | ACallback i raises => (log (OCallback i) s, if raises then Raise RuntimeError else Ok tt)
+  | ACallback i raises => (log (OCallback i) s, match raises with Some e => Raise e | None => Ok tt end)
   | ASeek off =>
       match s_fd s with
       | Some q => (with_fd (log (OSeek off) s) (Some q) off, Ok tt)
@@ -254,7 +254,7 @@ Definition sem (a : act) (s : st) : st * res unit :=
                     else (with_fs (log (ORmdir p) s) (delete fs p), Ok tt)
       | Some _ => (log (ORmdir p) s, Raise OSError)
       end
-  | AEvalRaise => (s, Raise RuntimeError)
+  | AEvalRaise e => (s, Raise e)
   | ATofileOpen t =>
       match nth_error (s_tens s) t with
       | None => (s, Raise OtherError)
@@ -290,6 +290,13 @@ Definition sem (a : act) (s : st) : st * res unit :=
       end
   | ARaiseExists => (s, Raise OSError)
   end.
+
+(* Exception kinds.  The shared enum (Base/Exn.v) reports everything outside the listed Exception classes
+   as OtherError; in this property's inputs those are exactly the BaseException-only kinds
+   KeyboardInterrupt / SystemExit (Ctrl-C in a callback, sys.exit() in a lazily evaluated tensor).
+   `try ... finally` (PTry) runs its handler for every kind; an `except Exception` handler would not run
+   for the kinds with is_base_exception = true.  _write_external_data uses `finally`. *)
+Definition is_base_exception (e : exn) : bool := match e with OtherError => true | _ => false end.
 
 (* ---- interruption control *)
 Inductive sig := SOk | SRaise (e : exn) | SCrash.
@@ -344,15 +351,15 @@ Fixpoint exec (c : ctl) (p : prog) (s : st) : st * sig :=
 Inductive tspec :=
 | TMem (d : list byte)
 | TExt (h : nat)
-| TLazyRaise
-| TMulti (chunks : list (list byte)) (raise_after : option nat).
+| TLazyRaise (e : exn)
+| TMulti (chunks : list (list byte)) (raise_after : option nat) (e : exn).
 
 Record scn := {
   sc_req : path;                       (* os.path.join(base_dir, relative_path) *)
   sc_tmpd : path;                      (* what tempfile.mkdtemp returns (contract: fresh) *)
   sc_tensors : list (nat * tspec);     (* (offset, tensor) in write order *)
   sc_chunk : nat;                      (* _core._EXTERNAL_TENSOR_COPY_CHUNK_SIZE *)
-  sc_cb : option (option nat);         (* no callback | callback (raising at index j) *)
+  sc_cb : option (option (nat * exn)); (* no callback | callback (raising e at index j) *)
   sc_cbbase : nat;                     (* global index of the first tensor of this file (sharded saves) *)
 }.
 
@@ -363,12 +370,12 @@ Fixpoint chunk_plan (fuel rel remaining c : nat) : list (nat * nat) :=
            else let n := Nat.min c remaining in (rel, n) :: chunk_plan f (rel + n) (remaining - n) c
   end.
 
-Fixpoint multi_acts (chunks : list (list byte)) (ra : option nat) : list act :=
+Fixpoint multi_acts (chunks : list (list byte)) (ra : option nat) (e : exn) : list act :=
   match ra with
-  | Some O => [AEvalRaise]
+  | Some O => [AEvalRaise e]
   | _ => match chunks with
          | [] => []
-         | ch :: r => AWrite ch :: multi_acts r (match ra with Some (S j) => Some j | _ => None end)
+         | ch :: r => AWrite ch :: multi_acts r (match ra with Some (S j) => Some j | _ => None end) e
          end
   end.
 
@@ -380,18 +387,18 @@ Definition tofile_acts (tens : list tstate) (c : nat) (sp : tspec) : list act :=
       ATofileOpen h
       :: flat_map (fun rn => [ARead h (fst rn) (snd rn); AWriteBuf]) (chunk_plan len 0 len c)
       ++ [ACheckFull h]
-  | TLazyRaise => [AEvalRaise]
-  | TMulti chunks ra => multi_acts chunks ra
+  | TLazyRaise e => [AEvalRaise e]
+  | TMulti chunks ra e => multi_acts chunks ra e
   end.
 
-Definition cb_acts (cb : option (option nat)) (i : nat) : list act :=
+Definition cb_acts (cb : option (option (nat * exn))) (i : nat) : list act :=
   match cb with
   | None => []
-  | Some None => [ACallback i false]
-  | Some (Some j) => [ACallback i (Nat.eqb i j)]
+  | Some None => [ACallback i None]
+  | Some (Some (j, e)) => [ACallback i (if Nat.eqb i j then Some e else None)]
   end.
 
-Fixpoint tensors_acts (tens : list tstate) (c : nat) (cb : option (option nat)) (i : nat)
+Fixpoint tensors_acts (tens : list tstate) (c : nat) (cb : option (option (nat * exn))) (i : nat)
          (l : list (nat * tspec)) : list act :=
   match l with
   | [] => []
@@ -476,8 +483,8 @@ Definition tensor_bytes (fs : fsT) (tens : list tstate) (sp : tspec) : list byte
                           end
               | None => []
               end
-  | TLazyRaise => []
-  | TMulti chunks _ => concat chunks
+  | TLazyRaise _ => []
+  | TMulti chunks _ _ => concat chunks
   end.
 
 Definition image (fs : fsT) (tens : list tstate) (l : list (nat * tspec)) : list byte :=
